@@ -88,15 +88,8 @@ func (g *FuncGen) libDefault(c *ast.CallExpr, callee *types.Func, st *State) []V
 			}
 		}
 	}
-	var res []Val
-	for i := 0; i < sig.Results().Len(); i++ {
-		rt := sig.Results().At(i).Type()
-		v := g.freshVal(st, "lib_"+sanitize(callee.Name()), rt)
-		res = append(res, v)
-	}
-	// convention of the standard library: a non-nil error comes with zero/nil companions only where
-	// documented; nothing is assumed here.
-	return res
+	_ = sig
+	return g.libResults(callee, st)
 }
 
 func isInterface(t types.Type) bool {
@@ -219,6 +212,19 @@ var libModels2 map[string]libModel
 
 func init() {
 	libModels2 = map[string]libModel{
+		"encoding/hex.DecodeString": func(g *FuncGen, c *ast.CallExpr, callee *types.Func, st *State) []Val {
+			a := g.ev(c.Args[0], st)
+			res := g.libResults(callee, st)
+			// a successful decode has consumed two digits per byte; the lower-case rendering of the result is the input
+			// only for lower-case input, so nothing is said about hex(result)
+			g.assume(st, fmt.Sprintf("(=> (= %s 0) (= (blen %s) (* 2 (blen %s))))", res[1].T, a.T, res[0].T))
+			g.assume(st, fmt.Sprintf("(=> (not (= %s 0)) (= (blen %s) 0))", res[1].T, res[0].T))
+			return res
+		},
+		"encoding/hex.EncodeToString": func(g *FuncGen, c *ast.CallExpr, callee *types.Func, st *State) []Val {
+			a := g.ev(c.Args[0], st)
+			return []Val{{fmt.Sprintf("(hex %s)", a.T), types.Typ[types.String], "Bytes"}}
+		},
 		"strings.HasPrefix": func(g *FuncGen, c *ast.CallExpr, callee *types.Func, st *State) []Val {
 			a := g.ev(c.Args[0], st)
 			b := g.ev(c.Args[1], st)
